@@ -112,4 +112,32 @@ CLAIMS = {
              "resolvers, delays: one result per event in order, k-th result == selection executed on the k-th event with only its errors (also after an "
              "event that failed unexpectedly); seven refusal cases are raised before the source stream is advanced.",
         note=BND + "Concurrent pulls by a consumer that does not await are not covered."),
+    "C05": dict(
+        category="other", engine="rtc",
+        technique="run-time contracts: validate_ast never raises; validated => executes per the reference executor with unambiguous response keys",
+        text="Bounded: over hand-written adversarial documents, generated valid operations, single-token mutations of both and the derivation corpus "
+             "over arbitrary names, validate_ast returns its error list without raising; every accepted operation executes without internal "
+             "exception, with the data the reference executor determines, and no response key merges different fields.",
+        note=BND + "Exception-escape analysis over the visitor-based validator is outside the VC generator's subset."),
+    "C06": dict(
+        category="other", engine="rtc",
+        technique="run-time verdict equality with a reference implementation of the 26 validation rules + metamorphic invariance; is_subtype proved (C13)",
+        text="Bounded: validate_ast's verdict equals that of a comprehension-style reference implementation of section 5 of the specification on "
+             "labelled single-rule violations, generated operations and their mutations; each labelled violation is reported; the verdict is "
+             "unchanged by permuting definitions, reversing selections / arguments / variable definitions, consistent renaming and re-spacing.",
+        note=BND + "Trusted: vf/ref_validate.py (276 self-test cases incl. the specification's own examples)."),
+    "C11": dict(
+        category="other", engine="rtc",
+        technique="run-time structural equality between a declarative reading of the SDL and the built schema, over orders and extension splits",
+        text="Bounded: describe(build_schema(doc)) == describe_sdl(doc) and closed(schema) for the base schema, 50+ edited variants and documents with "
+             "recursion / defaults / descriptions / deprecations / schema definitions, under definition permutations, random splits of members into "
+             "extend blocks, ignore_extensions and additional_types; 23 labelled invalid documents raise only schema / SDL errors.",
+        note=BND + "Known finding: defaults are coerced before extensions are merged."),
+    "C12": dict(
+        category="other", engine="rtc",
+        technique="frame obligation by typing the module state read by the serialisation code + run-time round-trip / fix-point / history contracts",
+        text="The serialisation modules hold no consumable module-level state that their functions read (generators / iterators), checked on the live "
+             "modules. Bounded: schema -> SDL -> schema structural identity (defaults in external form), text fix-point, parser acceptance for 11 "
+             "schemas x 6 option sets; every call of 2-3 call sequences equals the first call of a fresh process.",
+        note=BND + "Trusted: vf/ref_sdl.describe; build_schema (C11)."),
 }
